@@ -228,6 +228,7 @@ def main(argv):
                 undecided.append((name, f"solvers disagree or second solver undecided: z3 unsat, cvc5 {o['cross']}"))
             if o.get("bounded"):
                 bounded_items.append(name)
+                discharged_names.add(name)  # passes on the unchanged tree (for the baseline), never counted as proved
             else:
                 n_obl += 1
                 n_dis += 1
